@@ -174,27 +174,7 @@ func c03(r *Report) {
 		// the synthesised response is a well-formed one for this client: it speaks the
 		// request's protocol version (Response.Write prints ProtoMajor.ProtoMinor) and
 		// inherits the request's close wish
-		if nr := r.Use("proxyutil", "NewResponse"); nr != nil && len(nr.Params) >= 3 {
-			for _, fld := range []string{"Proto", "ProtoMajor", "ProtoMinor", "Close"} {
-				ok := false
-				for _, in := range instrs(nr) {
-					st, isSt := in.(*ssa.Store)
-					if !isSt {
-						continue
-					}
-					fa, isFa := st.Addr.(*ssa.FieldAddr)
-					if !isFa || fieldObj(fa).Name() != fld || fa.X.Type().String() != "*net/http.Response" {
-						continue
-					}
-					if ld, isLd := st.Val.(*ssa.UnOp); isLd {
-						if fa2, isFa2 := ld.X.(*ssa.FieldAddr); isFa2 && fieldObj(fa2).Name() == fld && isParamVal(fa2.X, nr.Params[2]) {
-							ok = true
-						}
-					}
-				}
-				r.Decide("flow", "M/proxyutil.NewResponse copies "+fld+" from the request", ok, "res."+fld+" = req."+fld, "a synthesised response (502, skipped round trip) does not carry the request's "+fld+": an HTTP/1.0 client is answered as 1.1 (or with the literal default), or its close wish is forgotten", nr.Pos())
-			}
-		}
+		newResponseCopiesRule(r)
 		if wf := r.Use("proxyutil", "Warning"); wf != nil {
 			warningQuoted(r, wf)
 		}
@@ -296,6 +276,12 @@ func c03(r *Report) {
 		}
 	})
 
+	r.Guard("C03.R8", "after a 502 the connection keeps serving: the deadline is pushed forward for every exchange", func() {
+		if lp := r.Use("", "Proxy.handleLoop"); lp != nil {
+			deadlineSitesRule(r, lp)
+		}
+	})
+
 	r.Guard("C03.R5", "an origin that aborts a blind tunnel does not leave the client hanging: the end of a copy direction is passed on however the copy ended", func() {
 		tunnelEOSRule(r, hcr, tunnelCopiers(hcr))
 	})
@@ -348,4 +334,32 @@ func c03(r *Report) {
 			r.Decide("path", "(*M.Proxy).handle: no processing after a failed read", p == nil, "the error edge only returns", "the exchange continues after a failed request read", rc[0].Pos())
 		}
 	})
+}
+
+// newResponseCopiesRule: a synthesised response speaks the request's protocol
+// version and inherits exactly the request's close wish. Shared by C03.R1 and
+// C01.R3 (a synthesised response that says close although nobody asked ends a
+// connection that must stay usable).
+func newResponseCopiesRule(r *Report) {
+	if nr := r.Use("proxyutil", "NewResponse"); nr != nil && len(nr.Params) >= 3 {
+		for _, fld := range []string{"Proto", "ProtoMajor", "ProtoMinor", "Close"} {
+			ok := false
+			for _, in := range instrs(nr) {
+				st, isSt := in.(*ssa.Store)
+				if !isSt {
+					continue
+				}
+				fa, isFa := st.Addr.(*ssa.FieldAddr)
+				if !isFa || fieldObj(fa).Name() != fld || fa.X.Type().String() != "*net/http.Response" {
+					continue
+				}
+				if ld, isLd := st.Val.(*ssa.UnOp); isLd {
+					if fa2, isFa2 := ld.X.(*ssa.FieldAddr); isFa2 && fieldObj(fa2).Name() == fld && isParamVal(fa2.X, nr.Params[2]) {
+						ok = true
+					}
+				}
+			}
+			r.Decide("flow", "M/proxyutil.NewResponse copies "+fld+" from the request", ok, "res."+fld+" = req."+fld, "a synthesised response (502, skipped round trip) does not carry the request's "+fld+": an HTTP/1.0 client is answered as 1.1 (or with the literal default), or its close wish is forgotten", nr.Pos())
+		}
+	}
 }
